@@ -47,8 +47,10 @@ impl PacketHeader {
 }
 
 impl IndexPacketHeader {
-    const ID: u8 = 0;
-    const SIZE: usize = 16;
+//@item src/packet.rs const ID owner=IndexPacketHeader
+//@enditem
+//@item src/packet.rs const SIZE owner=IndexPacketHeader
+//@enditem
 //@fn src/packet.rs IndexPacketHeader read serves=C03,C08,C09 ret=r
 //@rw reader: &mut dyn Read ==> reader: &mut PagedReader
 //@rw u16::from_le_bytes\(buffer\[(\d+)\.\.(\d+)\]\.try_into\(\)\.internal_err\(WRONG_OFFSET\)\?\) ==> shim_le_u16(&buffer, \1, \2)?
@@ -66,8 +68,10 @@ impl IndexPacketHeader {
 }
 
 impl DataPacketHeader {
-    const ID: u8 = 1;
-    const SIZE: usize = 6;
+//@item src/packet.rs const ID owner=DataPacketHeader
+//@enditem
+//@item src/packet.rs const SIZE owner=DataPacketHeader
+//@enditem
 //@fn src/packet.rs DataPacketHeader read serves=C03,C08,C09 ret=r
 //@rw reader: &mut dyn Read ==> reader: &mut PagedReader
 //@rw u16::from_le_bytes\(buffer\[(\d+)\.\.(\d+)\]\.try_into\(\)\.internal_err\(WRONG_OFFSET\)\?\) ==> shim_le_u16(&buffer, \1, \2)?
@@ -82,8 +86,10 @@ impl DataPacketHeader {
 }
 
 impl IgnoredPacketHeader {
-    const ID: u8 = 2;
-    const SIZE: usize = 4;
+//@item src/packet.rs const ID owner=IgnoredPacketHeader
+//@enditem
+//@item src/packet.rs const SIZE owner=IgnoredPacketHeader
+//@enditem
 //@fn src/packet.rs IgnoredPacketHeader read serves=C03,C08,C09 ret=r
 //@rw reader: &mut dyn Read ==> reader: &mut PagedReader
 //@rw u16::from_le_bytes\(buffer\[(\d+)\.\.(\d+)\]\.try_into\(\)\.internal_err\(WRONG_OFFSET\)\?\) ==> shim_le_u16(&buffer, \1, \2)?
@@ -102,7 +108,8 @@ impl IgnoredPacketHeader {
 //@item src/cv_section.rs struct CompressedVectorSectionHeader
 //@enditem
 impl CompressedVectorSectionHeader {
-    const SIZE: u64 = 32;
+//@item src/cv_section.rs const SIZE owner=CompressedVectorSectionHeader
+//@enditem
 //@fn src/cv_section.rs CompressedVectorSectionHeader read serves=C03,C08,C09,C17 ret=r
 //@rw reader: &mut dyn Read ==> reader: &mut PagedReader
 //@rw u64::from_le_bytes\(\s*buffer\[(\d+)\.\.(\d+)\]\.try_into\(\)\.internal_err\(WRONG_OFFSET\)\?,?\s*\) ==> shim_le_u64(&buffer, \1, \2)?
